@@ -28,7 +28,12 @@ META = {
     "text": "Lean theorems, for templates of any length: rendering a grammatical token list and parsing it back gives exactly "
     "the fields the template spells — names, input/output kind, types, ? + * modifiers, defaults, $ path templates, option strings — "
     "at positions 1..n in template order (C25_parse_render, C25_positions); the lexer classifies every rendered token as written "
-    "(C25_lex_*); tokens matching none of the regexes, a trailing option and `$` on an input are rejected (C25_reject_*).  The hand-written "
+    "(C25_lex_*); a token matching none of the regexes is rejected wherever it stands (C25_reject_unlexable, C25_unlexable_iff), as are a trailing "
+    "option, `$` on an input and a missing executable (C25_reject_*); the converse is false for the code — re.match anchors at the start only and a "
+    "pending option is overwritten silently — documented by witnesses (C25_lenient_*); argv clause: the parsed definition run through the Argv "
+    "engine's model (slot filling, _command_args, position_sort) yields the executable followed by every token's option and value(s) in template "
+    "order for safe values, all token kinds except <…:bool> (C25_argv, instantiating the Argv engine's lemmas with all positions explicit, so C22's "
+    "D26 hypothesis is discharged).  The hand-written "
     "matchers are the ones for the regex strings found in builder.py on this run (C25_regex_sources, C25_default_coercion_table, "
     "closed by decide over Gen/TemplateRegexes.lean).  The model is tied to pydra/compose/shell/builder.py by comparing "
     "parse_command_line_template, the fields of shell.define's class and the argv of runs with generated values (executor "
@@ -61,6 +66,12 @@ OBLIGATIONS = [
         "C25_reject_trailing_option",
         "C25_reject_template_on_input",
         "C25_reject_no_executable",
+        "C25_reject_unlexable",
+        "C25_unlexable_iff",
+        "C25_lenient_trailing_text",
+        "C25_lenient_option_overwritten",
+        "C25_lenient_option_text",
+        "C25_argv",
     )
 ]
 LEAN_TARGETS = ["PydraModel.Props.C25"]
@@ -613,6 +624,14 @@ def run_argv(ctx, jobs):
             a = ans[k]
             if "argv" in a:
                 model = {"argv": a["argv"]}
+                eng = a.get("engine")
+                if eng is None:
+                    ctx.count("argv-engine-not-applicable")
+                elif eng != a["argv"]:
+                    # the Argv engine's model (theorem C25_argv) and this engine's own argv builder must agree
+                    ctx.tie_broken.append({"kind": "argv-engine-disagrees", "template": t, "engine": eng, "template_model": a["argv"]})
+                else:
+                    ctx.count("argv-engine-agrees")
             elif a["err"].startswith("unmodelled"):
                 ctx.count("argv-outside-model:" + a["why"])
             else:
